@@ -1,4 +1,5 @@
 import PSO.Proofs.RaftDemo
+import PSO.Proofs.BridgeRestart
 
 /-!
 # C07 — votes and terms survive restarts (one leader per term across crashes)
@@ -90,5 +91,28 @@ example : ∃ s, Reachable 3 s ∧ s.g.leaderOf 1 = some 0 ∧ (s.nodes 0).role 
   | some s =>
     rw [hr] at h; simp at h
     exact ⟨s, reachable_iff_run.mpr ⟨_, hr⟩, h.1, h.2.1, h.2.2⟩
+
+/-- **What the implementation's kill + start keeps** (handler level, proved; `PSO/Proofs/BridgeRestart.lean`):
+`restartNode` / `restartExtra` (= `SyncObj.__init__` on the journal file + first tick, tested on the real class by
+op `restartnode`) return the journal's term and vote unchanged (repair D16), the journal afterwards is a suffix of the
+journal before the kill that still starts with the dump's two entries (nothing at or after the dump is dropped, nothing
+at all without a dump file), and the ghost-complete log is the same. -/
+theorem restart_handler_keeps_term_vote_log (x : PSO.NodeSend.Extra) (s : PSO.NodeSend.Node) (sc : Nat)
+    (dump : Option (PSO.NodeSend.Entry × PSO.NodeSend.Entry)) (ghost : List Entry)
+    (hheld : ∀ p l, dump = some (p, l) → PSO.Bridge.DumpHeld s.log p l) :
+    (PSO.NodeSend.restartNode s sc dump).term = s.term ∧ (PSO.NodeSend.restartExtra x).votedFor = x.votedFor ∧
+    (∃ k, (PSO.NodeSend.restartNode s sc dump).log = s.log.drop k ∧ (dump = none → k = 0) ∧
+      (∀ p l, dump = some (p, l) → ∃ rest, s.log.drop k = p :: l :: rest)) ∧
+    PSO.Bridge.restartGhost ghost s dump ++ PSO.Bridge.absLogS (PSO.NodeSend.restartNode s sc dump).log =
+      ghost ++ PSO.Bridge.absLogS s.log := by
+  exact PSO.Bridge.restart_keeps_journal x s sc dump ghost hheld
+
+/-- Non-vacuity: a candidate-turned-leader that voted for itself in term 1 comes back with term 1, vote 0, entries 2, 3. -/
+example : (PSO.NodeSend.restartNode PSO.Bridge.exLeaderR 2 (some (PSO.Bridge.exLogS[1]!, PSO.Bridge.exLogS[2]!))).term = 1 ∧
+    (PSO.NodeSend.restartExtra PSO.Bridge.exExtraR).votedFor = some 0 ∧
+    PSO.Bridge.DumpHeld PSO.Bridge.exLeaderR.log PSO.Bridge.exLogS[1]! PSO.Bridge.exLogS[2]! := by
+  refine ⟨by decide, by decide, ?_⟩
+  unfold PSO.Bridge.DumpHeld
+  decide
 
 end PSO.C07
